@@ -89,6 +89,9 @@ func New(o world.NodeOpts) (*Producer, error) {
 	o.Aggregator = true
 	p := &Producer{Ctx: ctx, Opts: o, Exec: world.NewExecDbl("pw"), TxsOf: map[uint64][][]byte{}, Raw: world.NewCrashDS(), DA: world.NewDADbl(0), Sgn: sgn}
 	p.Seq = world.NewSeqDbl(func() time.Time { return p.LastTime() })
+	if o.RefExec {
+		p.Exec.Ref = world.NewKVRef(p.Raw)
+	}
 	n, err := world.NewNode(ctx, o, p.Raw, sgn, pub, p.Exec, p.seq(), p.DA)
 	if err != nil {
 		return nil, err
@@ -109,6 +112,9 @@ func (p *Producer) seq() coresequencer.Sequencer {
 // doubles that model the outside world (execution, sequencing, DA, broadcast recorders).
 func (p *Producer) RestartOn(raw *world.CrashDS) error {
 	p.Raw = raw
+	if p.Opts.RefExec {
+		p.Exec.Ref = world.NewKVRef(raw) // the executor's database is part of what survived
+	}
 	n, err := p.N.Restart(p.Ctx, raw, p.Sgn, p.Exec, p.seq(), p.DA)
 	if err != nil {
 		return err
@@ -165,7 +171,7 @@ func (p *Producer) Step(st Step) (r StepResult) {
 		if resp.Kind == "empty" || resp.Kind == "txs" {
 			if _, _, e := st2.GetBlockData(p.Ctx, r.Before+1); e == nil {
 				if _, seen := p.TxsOf[r.Before+1]; !seen {
-					txs := resp.Txs
+					txs := resp.EffTxs()
 					if resp.Kind == "empty" {
 						txs = [][]byte{}
 					}
@@ -235,6 +241,18 @@ func (p *Producer) Oracle(when string, atRest bool, checkBroadcast bool) *world.
 }
 
 // HeaderHashes returns the header hash of every committed height.
+// DataHashes returns the hash of the stored data record (transactions and metadata) of every committed height.
+func (p *Producer) DataHashes() map[uint64][]byte {
+	out := map[uint64][]byte{}
+	h, _ := p.N.Store.Height(p.Ctx)
+	for i := p.N.Genesis.InitialHeight; i <= h; i++ {
+		if _, d, err := p.N.Store.GetBlockData(p.Ctx, i); err == nil {
+			out[i] = d.Hash()
+		}
+	}
+	return out
+}
+
 func (p *Producer) HeaderHashes() map[uint64][]byte {
 	out := map[uint64][]byte{}
 	h, _ := p.N.Store.Height(p.Ctx)
